@@ -92,3 +92,11 @@ class PCtxAll:
 
     def run(self):
         return sorted(self.context.items())
+
+
+@labtech.task(cache=None)
+class PExit:
+    x: int
+
+    def run(self):
+        raise SystemExit(self.x)
